@@ -64,7 +64,9 @@ func (r *Runner) Crash() (ok bool, err error) {
 func (r *Runner) CommitInfo() (int64, []byte) { return r.commitHeight, r.commitHash }
 
 // OpenBlock returns the transactions delivered in the open block so far.
-func (r *Runner) OpenBlock() (begun, ended bool, txs []BlockTx) { return r.blk.begun, r.blk.ended, r.blk.txs }
+func (r *Runner) OpenBlock() (begun, ended bool, txs []BlockTx) {
+	return r.blk.begun, r.blk.ended, r.blk.txs
+}
 
 // Redo restarts like Crash and then replays the interrupted block with identical bytes: BeginBlock
 // at the same time, every DeliverTx executed so far (environment transactions included) and, if
